@@ -121,7 +121,11 @@ func transitions(c *cfg, st state, v int) (outs []outcome, truncated *big.Float,
 		src := &script{words: words}
 		ctr := newCounter(c.Size, src)
 		setState(ctr, st.buf, st.p)
+		done := mc.InFlight(func() mc.Case {
+			return mc.Case{Harness: "cvm-reset", Trace: mc.J(tcase{Cfg: *c, Buf: st.buf, P: st.p}), Msg: fmt.Sprintf("Add(%d) from state %s with scripted random words %x", v, st.key(), words)}
+		})
 		ctr.Add(v)
+		done()
 		if src.short {
 			// The code wants one more random word: enumerate it.
 			pos := len(words)
